@@ -4,6 +4,7 @@ import contextlib
 import errno
 import io
 import json
+from collections import OrderedDict
 import os
 import shutil
 import subprocess
@@ -84,14 +85,22 @@ def inputs(model, rng):
     return dict(ok=(good, ["-E"]), filtered=(bytes(b), []), reject=(good[:-3] if len(good) > 75 else good[:60], ["-E"]), badheader=(b"XX" + good[2:], ["-E"]))
 
 
-def run_json(data, sel, sched, tmp):
-    """parseAndWriteOutput with faults on the output file; returns (events, input still there, output complete)"""
+def run_json(data, sel, sched, tmp, pre=None):
+    """parseAndWriteOutput with faults on the output file; returns (events, input still there, output complete).
+    pre: what an earlier run has left under the output name (a truncated or a different rendering), or None"""
     from pel.peltool import peltool
     src = os.path.join(tmp, "in", "pel_51000001")
     os.makedirs(os.path.dirname(src), exist_ok=True)
     os.makedirs(os.path.join(tmp, "out"), exist_ok=True)
     with open(src, "wb") as f:
         f.write(data)
+    want = None
+    if pre is not None:
+        r0 = pelgen.impl_decode(data, True)
+        if r0["kind"] == "ok":
+            want = r0["doc"]
+            with open(os.path.join(tmp, "out", "pel_51000001.%s.json" % r0["eid"]), "w") as f0:
+                f0.write(pre(r0["text"]))
     events = []
     real_open, real_remove = builtins.open, os.remove
 
@@ -121,8 +130,10 @@ def run_json(data, sel, sched, tmp):
     complete = False
     if outs:
         try:
-            json.loads(open(os.path.join(tmp, "out", outs[0])).read())
+            back = json.loads(open(os.path.join(tmp, "out", outs[0])).read(), object_pairs_hook=OrderedDict)
             complete = not (sched.get("open") or sched.get("write") or sched.get("close"))
+            if want is not None and pelgen.first_diff(want, back):
+                complete = False                 # what is there is not this PEL's document (left by the earlier run)
         except Exception:
             complete = False
     alive = os.path.exists(src)
@@ -216,6 +227,20 @@ def run(run, model, proof):
                         run.disagreements_checked += 1
                         run.violation("model:json-clean", "operations %r / removed=%s differ from the model %r / %s" % (trace, not alive, m["trace"], m["removed"]),
                                       dict(rp, kind="M", correspondence="Model.Clean.json_prog vs parseAndWriteOutput", model=m), no_input=True)
+                # ---- --json --clean run again over what an earlier, interrupted or different, run has left under the output name
+                if dec_name == "ok":
+                    for pname, pre in (("truncated", lambda t: t[:max(1, len(t) // 2)]), ("other", lambda t: "{}\n"), ("longer", lambda t: t + " " * 4096 + "[1]\n")):
+                        for bits in (0, 2, 4):
+                            sched = dict(open=bits & 1, write=bits & 2, close=bits & 4)
+                            events, alive, complete = run_json(data, sel, sched, tmp, pre=pre)
+                            run.evaluations += 1
+                            run.count("json-rerun:" + pname)
+                            rp = dict(fn="json-clean", decode=dec_name, schedule=sched, events=events, input_survives=alive, output_complete=complete,
+                                      input_hex=data.hex(), earlier_run_left=pname)
+                            if not alive and not complete:
+                                run.violation("json-clean:rerun-removed-without-output:%s" % pname,
+                                              "--json --clean, run over the %s output an earlier run left, removed the input although its document is not in the output file" % pname,
+                                              dict(rp, kind="S"))
                 # ---- --file --clean, as a document and as a hex display (-x): all subsets of {print, flush}
                 for bits in range(8):
                     hexm = bool(bits & 4)
